@@ -212,6 +212,13 @@ InDisc193(p) == (2 * p[1] - 193) * (2 * p[1] - 193) + (2 * p[2] - 193) * (2 * p[
 HilbertFirstInDisc == << 14, 47 >>
 HilbertLastInDisc == << 175, 41 >>
 HilbertPointsInDisc == 29240
+\* the curve of the Hilbert mesh inside the circle (a constant: TLC evaluates it once)
+HilbertCurveInDisc == SelectSeq(Gilbert(HilbertLength, HilbertLength), InDisc193)
+\* Uniform weights: every point of the curve carries probability 1/N, the cumulative curve is (k+1)/N with its first entry
+\* overwritten by 0, so quantile j/(n-1) sits at curve position j N/(n-1) - 1 (minus 1e-8 j N/(n-1) < 3e-4 of a step).
+\* Segment (0-based) and numerator of the fraction over n-1:
+UniformSeg(N, n, j) == IF j = 0 THEN 0 ELSE MinOf((j * N - (n-1)) \div (n-1), N - 2)
+UniformNum(N, n, j) == IF j = 0 THEN 0 ELSE (j * N - (n-1)) - UniformSeg(N, n, j) * (n-1)
 
 \* ---- inverse transform sampling ----
 \* C[m] = numerator over D of the cumulative sum p_1 + .. + p_m (C[Len] = D); the code overwrites the first entry by 0.
